@@ -120,6 +120,7 @@ def form_mappings(year, fname):
                 ob(oid + '/kind', w['ft'] == 'Ch', 'a choice mapping targets a choice field', {'ft': w['ft']})
                 ob(oid + '/choices', set(pf._choices) <= set(w['opts']) or not w['opts'], 'every choice of the mapping is an option of the template field', {'extra': sorted(set(pf._choices) - set(w['opts']))[:5]})
     obs.extend(exclusive_groups(year, fname, form, xfa, acro, fid))
+    obs.extend(yesno_groups(year, fname, form, xfa, acro, fid))
     return obs
 
 
@@ -135,6 +136,59 @@ def value_domain(fld):
     if isinstance(fld, F.BooleanField):
         return [True, False]
     return None
+
+
+def yesno_groups(year, fname, form, xfa, acro, fid):
+    """AcroForm templates (N.C.): check boxes the template itself names <stem>[n]yes / <stem>[n]no answer one question.
+    All mapped boxes of one stem are driven by one line, and no value of that line turns on a yes box and a no box together;
+    every value turns on at least one of them."""
+    from habutax import pdf_fields as P
+    if xfa:
+        return []
+    cat = linevc.Cat.get(year)
+    groups = {}
+    for pf in form.pdf_fields():
+        if not isinstance(pf, P.ButtonPDFField):
+            continue
+        m = re.match(r'^(.*?)(\d*)(yes|no)$', pf.pdf_field_name, re.I)
+        if m:
+            groups.setdefault(m.group(1), []).append((m.group(3).lower(), pf))
+    obs = []
+    for stem, items in groups.items():
+        if len(items) < 2 or len({k for k, _ in items}) < 2:
+            continue
+        oid = f'C18/{year}/{fname}/yesno={stem}'
+        drivers = {pf.field_name for _, pf in items}
+        if len(drivers) != 1:
+            obs.append(Ob(id=oid + '/one-driver', status=oblig.REFUTED, backend='ground-eval', function=fid,
+                          clause=f'the yes/no boxes {[pf.pdf_field_name for _, pf in items]} of one question are filled from several lines {sorted(drivers)}',
+                          witness={'drivers': sorted(drivers)}, replay={'reproduced': True}))
+            continue
+        obs.append(Ob(id=oid + '/one-driver', backend='ground-eval', function=fid, clause=f'yes/no boxes of {stem}* are all filled from line {sorted(drivers)[0]}', vc=str([pf.pdf_field_name for _, pf in items])))
+        ln = next(iter(drivers))
+        full = ln if '.' in ln else f'{form.name()}.{ln}'
+        fld = cat.fields.get(full)
+        dom = value_domain(fld) if fld is not None else None
+        if dom is None:
+            continue
+        bad = None
+        for v in dom:
+            on = {'yes': [], 'no': []}
+            for k, pf in items:
+                try:
+                    r = pf.value(v, fld)
+                except BaseException as ex:
+                    r = f'raised {type(ex).__name__}'
+                if r != 'Off':
+                    on[k].append(pf.pdf_field_name)
+            if (on['yes'] and on['no']) or (isinstance(v, bool) and not on['yes'] and not on['no']):
+                bad = (str(v), on)
+        if bad is None:
+            obs.append(Ob(id=oid + '/yes-xor-no', backend='ground-eval', function=fid, clause=f'every value of {full} ticks yes boxes or no boxes of {stem}*, never both', vc=f'{len(dom)} value(s)'))
+        else:
+            obs.append(Ob(id=oid + '/yes-xor-no', status=oblig.REFUTED, backend='ground-eval', function=fid, clause=f'value {bad[0]} of {full} ticks {bad[1]}',
+                          witness={'value': bad[0], 'on': bad[1]}, replay={'reproduced': True}))
+    return obs
 
 
 def exclusive_groups(year, fname, form, xfa, acro, fid):
